@@ -356,6 +356,12 @@ class Machine:
                     if pe == 'deref':
                         continue
                 elif pe == 'deref':
+                    if s.get('mut') is False and rv == 'ref' and isinstance(cur, (dict, tuple)) and not is_sym(cur) and isinstance(local, (int, tuple)) and not (isinstance(local, tuple) and local and local[0] == 'ptr'):
+                        # a shared reference through a by-value stand-in of a reference held in a local (the item a slice iterator
+                        # handed out): the referent is what the local holds *now* - a later assignment of the local must not
+                        # change what this reference sees
+                        ptr = self.alloc(cur)
+                        local, pre = ptr[1], []
                     continue                                   # transparent smart pointer
                 pre.append(pe)
             return ('ptr', local, tuple(pre))
